@@ -10,7 +10,7 @@ import random
 LAZY_GROUPS = {
     "covalent_radius": ["covalent_radius", "covalent_radius_units", "covalent_radius_uncertainty"],
     "crystal_structure": ["crystal_structure"],
-    "neutron": ["neutron"],
+    "neutron": ["neutron", "nuclear_spin"],
     "activation": ["neutron_activation"],
     "xray": ["xray"],
     "emission": ["K_alpha", "K_beta1", "K_alpha_units", "K_beta1_units"],
@@ -20,9 +20,9 @@ NAME_GROUP = {n: g for g, ns in LAZY_GROUPS.items() for n in ns}
 LAZY_NAMES = [n for ns in LAZY_GROUPS.values() for n in ns]
 # eager names: read as perturbation and compared like any other read
 EAGER_NAMES = ["mass", "density", "number_density", "interatomic_distance", "abundance",
-               "nuclear_spin", "isotopes", "ions", "symbol", "name", "number", "charge"]
+               "isotopes", "ions", "symbol", "name", "number", "charge"]
 PUBLIC_GROUPS = ["mass", "density", "covalent_radius", "crystal_structure", "neutron",
-                 "activation", "xray", "emission", "magnetic_ff", "calc"]
+                 "activation", "xray", "emission", "magnetic_ff", "routes", "calc"]
 INIT_GROUPS = ["mass", "density", "neutron", "xray", "emission", "covalent_radius",
                "crystal_structure", "magnetic_ff", "activation"]
 IMPORTS = ["periodictable.nsf", "periodictable.xsf", "periodictable.activation",
